@@ -189,6 +189,7 @@ class StrEval:
         self.T = types
         self.bindings = bindings or {}
         self.unknown = []  # constructs the evaluator could not interpret (fail closed by callers)
+        self.parsed = []  # (call node, FCtx, value, inlining stack) for every parse_xml(...) evaluated
         self._stack = []
 
     # -- public ----------------------------------------------------------------------------------
@@ -229,6 +230,8 @@ class StrEval:
                 return None
             if all(isinstance(v, S) for v in vals):
                 return alt(vals)
+            if all(isinstance(v, tuple) and v and v[0] == "parsed" and isinstance(v[1], S) for v in vals):
+                return ("parsed", alt([v[1] for v in vals]), vals[0][2])
             # mixed / non-string returns
             strs = [v for v in vals if isinstance(v, S)]
             if strs:
@@ -911,7 +914,9 @@ class StrEval:
         if fn == "cast" and len(e.args) == 2:
             return self.eval(e.args[1], fc, env)
         if fn in ("parse_xml",) and e.args:
-            return ("parsed", self.eval(e.args[0], fc, env), e)
+            v = self.eval(e.args[0], fc, env)
+            self.parsed.append((e, fc, v, list(self._stack)))
+            return ("parsed", v, e)
         # -- repo callables ---------------------------------------------------------------------------
         fv = self.eval(e.func, fc, env)
         args = [self._argval(a, fc, env) for a in e.args if not isinstance(a, ast.Starred)]
